@@ -270,6 +270,12 @@ func (e *Engine) modelMods(fv *FuncVer, fn *ssa.Function, cc *ssa.CallCommon) []
 			return []string{k}
 		}
 	case name == "sort.Slice":
+		if mi, ok := cc.Args[0].(*ssa.MakeInterface); ok {
+			if sl, ok := types.Unalias(mi.X.Type()).Underlying().(*types.Slice); ok {
+				k, _ := fv.elemsKey(sl.Elem())
+				return []string{k}
+			}
+		}
 		var out []string
 		for k := range fv.heapSorts {
 			if strings.HasPrefix(k, "E:") {
@@ -449,7 +455,42 @@ func slicesReverse(fv *FuncVer, st *State, ins ssa.Instruction, fn *ssa.Function
 }
 
 func sortSlice(fv *FuncVer, st *State, ins ssa.Instruction, fn *ssa.Function, args []Val, cc *ssa.CallCommon) Val {
-	// result is some permutation: forget every slice backing store (over-approximation)
+	// sort.Slice(x, less): afterwards the slice holds an unspecified permutation of its
+	// former elements (no order is assumed, so nothing depends on what less computes);
+	// less is assumed to have no side effects. Everything else is unchanged.
+	c := fv.ctx
+	if mi, ok := cc.Args[0].(*ssa.MakeInterface); ok {
+		if slt, ok := types.Unalias(mi.X.Type()).Underlying().(*types.Slice); ok {
+			if sl, ok := fv.val(st, mi.X).(*Term); ok {
+				key, hs := fv.elemsKey(slt.Elem())
+				h := fv.heap(st, key, hs)
+				base, off, ln := Field(sl, 0), Field(sl, 1), Field(sl, 2)
+				if rl := resolve(ln); rl.IsLit && rl.Int.Sign() == 0 {
+					return nil // nothing to sort
+				}
+				oldRow := c.Name("sortold", Select(h, base))
+				newRow := c.Fresh("sorted", oldRow.Sort)
+				perm := c.Fresh("perm", c.ArraySort(c.W, c.W))
+				inv := c.Fresh("perminv", c.ArraySort(c.W, c.W))
+				// indices relative to the slice, so that the reads s[k] of contracts (array index
+				// off+k) match the triggers and their instances
+				j := BoundVar("j_q", c.W)
+				i := BoundVar("i_q", c.W)
+				out := Or(c.WLt(j, off), c.WLe(c.WAdd(off, ln), j))
+				in := And(c.WLe(c.WLit(0), i), c.WLt(i, ln))
+				at := func(arr, k *Term) *Term { return Select(arr, c.WAdd(off, k)) }
+				pi := Select(perm, i)
+				st.assume(Forall([]*Term{j}, Implies(out, Eq(Select(newRow, j), Select(oldRow, j))), Select(newRow, j)))
+				st.assume(Forall([]*Term{i}, Implies(in, And(c.WLe(c.WLit(0), pi), c.WLt(pi, ln), Eq(Select(inv, pi), i), Eq(at(newRow, i), at(oldRow, pi)))), at(newRow, i)))
+				// onto: every former element is somewhere in the result
+				ii := Select(inv, i)
+				st.assume(Forall([]*Term{i}, Implies(in, And(c.WLe(c.WLit(0), ii), c.WLt(ii, ln), Eq(Select(perm, ii), i), Eq(at(newRow, ii), at(oldRow, i)))), at(oldRow, i)))
+				st.heaps[key] = c.Name("h", Store(h, base, newRow))
+				fv.note(st, "sort.Slice: unspecified permutation")
+				return nil
+			}
+		}
+	}
 	var keys []string
 	for k := range st.heaps {
 		if strings.HasPrefix(k, "E:") {
